@@ -185,6 +185,19 @@ CHECKS = {
 }
 
 CHECKS_EXTRA = {
+    "C20": ("stateless schedule exploration with iterative preemption bounding: real threads running real utype calls under a "
+            "controlled scheduler (sys.settrace line events of the instrumented shared-state functions, one baton), every "
+            "schedule within the bound executed on fresh state",
+            "7 scenarios (first parse of classes with pending forward references, module level and function-local, from one "
+            "end and from both ends of a mutual recursion; first calls of a decorated function with forward-referenced "
+            "parameter / return types; concurrent decoration of one function; conversions racing a registration in the "
+            "process-wide converter registry) x every interleaving of 2 threads with <= 1 preemption (quick) / 3 threads with "
+            "<= 2 preemptions (thorough): each call's outcome equals its outcome when run alone (for the registry: before or "
+            "after the registration), no extra exception, no hang, and a solo call after all threads finished gives the "
+            "baseline. Evidence reports schedules per scenario and scheduling points per execution.",
+            "Trusted: the scheduler (replay divergence is a hard error; a failing schedule must fail again on replay). "
+            "Line granularity under CPython's GIL; code outside the instrumented functions runs atomically.",
+            "DESIGN.md §3 C20"),
     "C17": ("explicit enumeration of generated programs (reference graph x spelling of every reference x definition order x "
             "scope) x first-use orders x inputs, each executed in a fresh module on the real library and compared with a "
             "structural reference model",
